@@ -103,8 +103,12 @@ fn disarm() -> usize {
 static LAST_PANIC: Mutex<Option<String>> = Mutex::new(None);
 /// watchdog kills so far (parent side): a tree that hangs everywhere must not cost hours
 static HANGS: AtomicUsize = AtomicUsize::new(0);
-const HANGS_SHORT_TIMEOUT: usize = 36;
-const HANGS_GIVE_UP: usize = 240;
+const HANGS_SHORT_TIMEOUT: usize = 150;
+const HANGS_GIVE_UP: usize = 400;
+/// hangs the model did not predict are confirmed with a long timeout (a loaded machine must not
+/// turn a slow case into a finding); only the first few, a tree that hangs everywhere stays cheap
+static CONFIRMED: AtomicUsize = AtomicUsize::new(0);
+const CONFIRM_LIMIT: usize = 8;
 
 fn take_panic() -> String {
     LAST_PANIC
@@ -819,11 +823,11 @@ impl Drop for Worker {
 }
 
 /// the failure sites of the model, in the order of `Site.all` (bit i of the fix mask)
-const SITES: [&str; 28] = [
+const SITES: [&str; 30] = [
     "snaIm", "snaPage", "szxIdUtf8", "szxAlloc", "szxCrtrShort", "szxCrtrUtf8", "szxZ80rShort", "szxZ80rIm",
     "szxSpcrShort", "szxSpcrBorder", "szxAyShort", "szxKeybShort", "szxAmxmShort", "szxRampShort",
     "szxRampPage", "szxRampData", "szxRampInflated", "tapArith", "tapIndex", "tapPilot", "vtxSpin",
-    "vtxScan", "vtxArith", "vtxStrings", "vtxAlloc", "vtxPlayerFreq", "vtxLha", "snaRev",
+    "vtxScan", "vtxArith", "vtxStrings", "vtxAlloc", "vtxPlayerFreq", "vtxLha", "snaRev", "snaRestore", "szxMachine",
 ];
 
 fn site_bit(name: &str) -> u32 {
@@ -963,7 +967,7 @@ fn vtx_claim(bytes: &[u8]) -> u64 {
 impl Ctx {
     fn timeout_for(&self, c: &Case) -> Duration {
         if HANGS.load(Ordering::Relaxed) > HANGS_SHORT_TIMEOUT {
-            return Duration::from_millis(300);
+            return Duration::from_millis(1000);
         }
         if inner_loader(c) == "vtx" {
             self.vtx_timeout
@@ -1025,6 +1029,19 @@ impl Ctx {
         }
     }
 
+    fn predict(&mut self, c: &Case, req: &Option<String>, obs: &Obs) -> Pred {
+        match req {
+            Some(r) => {
+                let a = self.model.ask(r);
+                if a == "bad-op" || a == "unimplemented" {
+                    panic!("driver rejected: {}", &r[..r.len().min(300)]);
+                }
+                parse_pred(c, &a)
+            }
+            None => Pred { class: obs.class.clone(), detail: "-".into(), ..Default::default() },
+        }
+    }
+
     fn eval(&mut self, c0: &Case) -> Eval {
         let mut patched;
         let mut c = c0;
@@ -1039,17 +1056,18 @@ impl Ctx {
         let t = self.timeout_for(c);
         let obs = self.worker.run(c, t);
         let loader = inner_loader(c).to_string();
-        let req = model_request(c, self.fix, &obs);
-        let pred = match &req {
-            Some(r) => {
-                let a = self.model.ask(r);
-                if a == "bad-op" || a == "unimplemented" {
-                    panic!("driver rejected: {}", &r[..r.len().min(300)]);
-                }
-                parse_pred(c, &a)
+        let mut obs = obs;
+        let mut req = model_request(c, self.fix, &obs);
+        let mut pred = self.predict(c, &req, &obs);
+        if obs.class == "hang" && pred.class != "hang" && CONFIRMED.fetch_add(1, Ordering::Relaxed) < CONFIRM_LIMIT {
+            let again = self.worker.run(c, Duration::from_secs(10));
+            if again.class != "hang" {
+                HANGS.fetch_sub(1, Ordering::Relaxed);
             }
-            None => Pred { class: obs.class.clone(), detail: "-".into(), ..Default::default() },
-        };
+            obs = again;
+            req = model_request(c, self.fix, &obs);
+            pred = self.predict(c, &req, &obs);
+        }
         let model_class = if pred.alloc > CAP { "huge".to_string() } else { pred.class.clone() };
         let acceptable = obs.class == "ok" || obs.class == "err";
         // what an external decompressor legitimately adds to the allocation bound
@@ -2184,14 +2202,28 @@ kind or failure site)"
         }
     }
     {
-        // behaviour switch of the SNA repair: is a 48K snapshot refused by the 128K machine as well?
+        // behaviour switches (not failure sites): what the tree under test does where several
+        // behaviours are acceptable. Each is read off one probe input.
+        let mut probe = |name: &str, c: Case| {
+            let t = ctx.timeout_for(&c);
+            let o = ctx.worker.run(&c, t);
+            if o.class == "err" {
+                ctx.fix |= site_bit(name);
+                fixed_sites.push(name.to_string());
+            }
+        };
+        // is a 48K snapshot refused by the 128K machine as well?
         let mut c = Case::new("sna").machine(true, false, 0);
         c.segs = sna_segs(&[1u8; 27], 49179, [0; 4], 0);
-        let t = ctx.timeout_for(&c);
-        if ctx.worker.run(&c, t).class == "err" {
-            ctx.fix |= site_bit("snaRev");
-            fixed_sites.push("snaRev".to_string());
-        }
+        probe("snaRev", c);
+        // restore_7ffd: a locked 128K receiver still takes the file's bank (2 => a sixth tail bank is
+        // needed, the 131103-byte file ends one bank early)
+        let mut c = Case::new("sna").machine(true, true, 0);
+        c.segs = sna_segs(&[1u8; 27], 131103, [0, 0x80, 2, 0], 0);
+        probe("snaRestore", c);
+        // SZX for the other machine model refused?
+        let b = SzxB::new(2);
+        probe("szxMachine", b.finish(Case::new("szx")));
     }
     rep.extra.push(("repaired_sites_detected".into(), J::A(fixed_sites.iter().map(|s| J::s(s.clone())).collect())));
     rep.extra.push(("fix_mask".into(), J::s(format!("{:x}", ctx.fix))));
